@@ -134,6 +134,7 @@ type c02Harness struct {
 	kinds    map[string]int
 	onOwn    func(mi msgInfo) // called for every message the node put on its internal queue
 	hardCap  int
+	got      []msgInfo // messages delivered from the network (C01/C03 harness)
 }
 
 func (h *c02Harness) hashID(b []byte) uint64 {
